@@ -426,7 +426,10 @@ def arg_cases(draw):
             uses.append(u)
     uses = draw(st.permutations(uses))
     return {'decls': decls, 'uses': list(uses),
-            'cwd': draw(st.sampled_from(['src', 'root', 'bld']))}
+            'cwd': draw(st.sampled_from(['src', 'root', 'bld'])),
+            # how many of the declarations live in options scripts included
+            # from options.bfg (one and two levels down)
+            'nested': draw(st.integers(0, len(decls)))}
 
 
 def dest(name):
@@ -514,6 +517,8 @@ def prop_args(rec):
         labs = {'kind:' + d['kind'] for d in case['decls']}
         if any(u['x'] for u in case['uses']):
             labs.add('x-spelling')
+        if case.get('nested'):
+            labs.add('nested-options-scripts')
         rec.case(labs, nontrivial=(
             [sorted((d['kind'], '-' in d['name']) for d in case['decls']),
              sorted((byname[u['name']]['kind'], u['x'], u.get('on'))
@@ -524,8 +529,27 @@ def prop_args(rec):
             src = os.path.join(tmp, 'src')
             os.makedirs(src)
             sandbox.write_file(os.path.join(src, 'build.bfg'), DUMP_BFG)
-            sandbox.write_file(os.path.join(src, 'options.bfg'),
-                               options_script(case['decls']))
+            k = len(case['decls']) - case.get('nested', 0)
+            top, inner = case['decls'][:k], case['decls'][k:]
+            if inner:
+                # root -> opts/core -> opts/extra (named relative to core)
+                mid = inner[:(len(inner) + 1) // 2]
+                low = inner[len(mid):]
+                sandbox.write_file(
+                    os.path.join(src, 'options.bfg'),
+                    options_script(top[:1]) + "submodule('opts/core')\n" +
+                    options_script(top[1:]))
+                sandbox.write_file(
+                    os.path.join(src, 'opts', 'core', 'options.bfg'),
+                    options_script(mid) + ("submodule('../extra')\n"
+                                           if low else ''))
+                if low:
+                    sandbox.write_file(
+                        os.path.join(src, 'opts', 'extra', 'options.bfg'),
+                        options_script(low))
+            else:
+                sandbox.write_file(os.path.join(src, 'options.bfg'),
+                                   options_script(case['decls']))
             env = sandbox.base_env(os.path.join(tmp, 'home'))
             results = {}
             for flip in (False, True):
